@@ -145,6 +145,60 @@ Section SortVoting.
 End SortVoting.
 
 (* ---------------------------------------------------------------------------------------------- *)
+(* VisualVoting::winners (src/trackers/visual_sort/voting.rs).
+   A stream entry carries the feature distance (exact rational) and the positional metric as the integer weight
+   (attribute_metric * 1e6) as i64 (None: no positional metric), as in Model/Assign.v.
+     1. BestFitVoting on the feature distances; every query that has any eligible claim (winner or loser) gets the
+        HEAD of its best-fit list - its heaviest claim: the track if that claim won, the query itself if it lost - typed
+        Visual; that head is also put into `excluded_tracks`.
+     2. entries whose query is such a claimant, whose track is excluded, or that have no positional metric are dropped;
+        the rest goes to SortVoting::new(thr, #remaining candidates, #remaining tracks), typed Positional.
+   The result is a HashMap; the model returns it in canonical form (sorted by query id) so that equality is Leibniz. *)
+Inductive vtype := Visual | Positional.
+
+Record vd := { v_from : N; v_to : N; v_w : option Z; v_feat : option Q }.
+Definition vd_dist (e : vd) : dist := {| d_from := v_from e; d_to := v_to e; d_attr := None; d_feat := v_feat e |}.
+
+Definition vis_feature (maxd : Q) (minv : nat) (s : list vd) : list (N * N) :=
+  flat_map (fun g => match snd g with
+                     | [] => []                                  (* w[0] on an empty list: cannot happen *)
+                     | e :: _ => [(fst g, fst e)]
+                     end) (best_fit_voting maxd minv (map vd_dist s)).
+
+Definition memN (x : N) (l : list N) : bool := existsb (N.eqb x) l.
+
+Definition vis_remaining (claimants excluded : list N) (s : list vd) : pairs :=
+  flat_map (fun e => match v_w e with
+                     | Some z => if negb (memN (v_from e) claimants || memN (v_to e) excluded)
+                                 then [(v_from e, v_to e, z)] else []
+                     | None => []
+                     end) s.
+
+Definition vis_rem (maxd : Q) (minv : nat) (s : list vd) : pairs :=
+  vis_remaining (map fst (vis_feature maxd minv s)) (map snd (vis_feature maxd minv s)) s.
+
+(* sorted by key: the canonical form of a HashMap<u64, _> *)
+Fixpoint insert_k {V : Type} (e : N * V) (l : list (N * V)) : list (N * V) :=
+  match l with
+  | [] => [e]
+  | x :: r => if (fst e <=? fst x)%N then e :: l else x :: insert_k e r
+  end.
+Definition canon_k {V : Type} (l : list (N * V)) : list (N * V) := fold_right insert_k [] l.
+
+Section VisualVoting.
+  Variable km : list (list Z) -> list nat.
+  Definition visual_raw (thr : Z) (maxd : Q) (minv : nat) (s : list vd) : option (list (N * (N * vtype))) :=
+    let fw := vis_feature maxd minv s in
+    let rem := vis_rem maxd minv s in
+    match sort_winners km thr (length (froms rem)) (length (tos rem)) rem with
+    | None => None
+    | Some pw => Some (map (fun e => (fst e, (snd e, Visual))) fw ++ map (fun e => (fst e, (snd e, Positional))) pw)
+    end.
+  Definition visual_winners (thr : Z) (maxd : Q) (minv : nat) (s : list vd) : option (list (N * (N * vtype))) :=
+    option_map canon_k (visual_raw thr maxd minv s).
+End VisualVoting.
+
+(* ---------------------------------------------------------------------------------------------- *)
 (* entry points for the correspondence check *)
 Definition mk (f t : N) (e : option Q) : dist := {| d_from := f; d_to := t; d_attr := None; d_feat := e |}.
 
@@ -158,3 +212,9 @@ Definition run_topn (n : nat) (maxd : Q) (minv : nat) (s : list dist) :=
   (out_map (topn_voting n maxd minv s), topn_tie maxd minv s, out_cands (cands maxd minv s)).
 Definition run_bestfit (maxd : Q) (minv : nat) (s : list dist) :=
   (out_map (best_fit_voting maxd minv s), bestfit_tie maxd minv s, out_cands (cands maxd minv s)).
+
+(* visual voting, checked against an implementation answer: the positional stage is an oracle call, so the model
+   reports the Visual part, the remaining positional sub-stream and the bookkeeping the driver needs *)
+Definition mkv (f t : N) (w : option Z) (e : option Q) : vd := {| v_from := f; v_to := t; v_w := w; v_feat := e |}.
+Definition run_visual (maxd : Q) (minv : nat) (s : list vd) :=
+  (vis_feature maxd minv s, vis_rem maxd minv s, bestfit_tie maxd minv (map vd_dist s)).
